@@ -14,6 +14,7 @@ import (
 	"sort"
 	"strings"
 	"sync"
+	"syscall"
 	"time"
 
 	"github.com/goplus/gogen/packages"
@@ -205,7 +206,9 @@ func (s *Scratch) BuildAll(progs []*Prog) error {
 	return nil
 }
 
-// RunAll runs every built program (GOMAXPROCS=1, 20 s limit each) in parallel.
+// RunAll runs every built program (GOMAXPROCS=1) in parallel. A program is stopped when it has
+// used 10 s of CPU time (ulimit -t, so the verdict does not depend on how busy the machine is);
+// the wall-clock limit of 10 minutes is only a backstop for a program that sleeps.
 func (s *Scratch) RunAll(progs []*Prog) {
 	sem := make(chan struct{}, runtime.NumCPU())
 	var wg sync.WaitGroup
@@ -218,7 +221,7 @@ func (s *Scratch) RunAll(progs []*Prog) {
 		go func(p *Prog) {
 			defer wg.Done()
 			defer func() { <-sem }()
-			cmd := exec.Command(filepath.Join(s.Dir, "bin", p.Name))
+			cmd := exec.Command("/bin/sh", "-c", `ulimit -t 10; exec "$0"`, filepath.Join(s.Dir, "bin", p.Name))
 			cmd.Env = []string{"GOMAXPROCS=1", "GOTRACEBACK=single"}
 			cmd.Dir = s.Dir
 			var so, se bytes.Buffer
@@ -234,10 +237,14 @@ func (s *Scratch) RunAll(progs []*Prog) {
 			case err := <-done:
 				if ee, ok := err.(*exec.ExitError); ok {
 					p.Exit = ee.ExitCode()
+					if ws, ok := ee.Sys().(syscall.WaitStatus); ok && ws.Signaled() && (ws.Signal() == syscall.SIGXCPU || ws.Signal() == syscall.SIGKILL) {
+						p.TimedOut = true // CPU limit
+						p.Exit = -2
+					}
 				} else if err != nil {
 					p.Exit = -1
 				}
-			case <-time.After(10 * time.Second):
+			case <-time.After(10 * time.Minute):
 				cmd.Process.Kill()
 				<-done
 				p.TimedOut = true
